@@ -991,6 +991,7 @@ func c13Run(r *Run) {
 	}
 
 	c13MiddlewareOrder(r, pkg)
+	c13ScriptWrites(r, pkg)
 
 	// multi-valued headers: a Set-Cookie line is added, never set (Header.Set keeps only the last cookie)
 	r.curRule = "C13-VALUE"
@@ -1560,6 +1561,74 @@ func c13RegistrationOrder(r *Run, pkg *packages.Package, apply *ast.FuncDecl) {
 			r.bad(key, vd.bad, "the registered middleware list "+v.Name()+" "+vd.msg+": entries no longer sit in registration order, so middlewares of equal priority do not run in the order they were registered")
 		} else {
 			r.ok(key, vd.pos, "the registered middleware list is only grown at its end or replaced by a copy")
+		}
+	}
+}
+
+// c13ScriptWrites: a script-facing body method ($res->write(), ->html(), ->json() …: a Call method of
+// package std/net/http that hands bytes to the buffering writer) hands them over on *every* path that
+// returns success. A path that answers success without the write drops body bytes ("the client receives
+// the concatenation of all body writes").
+func c13ScriptWrites(r *Run, pkg *packages.Package) {
+	r.curRule = "C13-BODY"
+	info := pkg.TypesInfo
+	isWriterCall := func(c *ast.CallExpr) bool {
+		se, ok := ast.Unparen(c.Fun).(*ast.SelectorExpr)
+		if !ok || !strings.HasPrefix(se.Sel.Name, "Write") {
+			return false
+		}
+		t := info.TypeOf(se.X)
+		if pt, ok := t.(*types.Pointer); ok {
+			t = pt.Elem()
+		}
+		nt := namedOf(t)
+		return nt != nil && nt.Obj().Pkg() == pkg.Types && nt.Obj().Name() == "bufferedWriter"
+	}
+	for _, fd := range funcDecls(pkg) {
+		if fd.Body == nil || fd.Name.Name != "Call" || fd.Recv == nil {
+			continue
+		}
+		writes := false
+		ast.Inspect(fd.Body, func(n ast.Node) bool {
+			if c, ok := n.(*ast.CallExpr); ok && isWriterCall(c) && c.Fun.(*ast.SelectorExpr).Sel.Name != "WriteHeader" {
+				writes = true
+			}
+			return !writes
+		})
+		if !writes {
+			continue
+		}
+		// a success return placed in front of the first hand-over skips it (a later conditional write —
+		// `if rendered != nil { w.Write(…) }` — has nothing to write on its other arm and is not judged)
+		firstWrite := token.NoPos
+		ast.Inspect(fd.Body, func(n ast.Node) bool {
+			if c, ok := n.(*ast.CallExpr); ok && isWriterCall(c) && c.Fun.(*ast.SelectorExpr).Sel.Name != "WriteHeader" {
+				if firstWrite == token.NoPos || c.Pos() < firstWrite {
+					firstWrite = c.Pos()
+				}
+			}
+			return true
+		})
+		bad := token.NoPos
+		ast.Inspect(fd.Body, func(n ast.Node) bool {
+			if _, isLit := n.(*ast.FuncLit); isLit {
+				return false
+			}
+			rs, ok := n.(*ast.ReturnStmt)
+			if !ok || rs.Pos() > firstWrite || bad != token.NoPos {
+				return true
+			}
+			if len(rs.Results) == 2 && exprStr(rs.Results[1]) != "nil" {
+				return true // an error return hands back a non-nil control
+			}
+			bad = rs.Pos()
+			return true
+		})
+		key := funcKey(pkg, fd) + "#every-success-writes"
+		if bad != token.NoPos {
+			r.bad(key, bad, "this body method answers success before anything was handed to the response writer: the body bytes of that call are dropped")
+		} else {
+			r.ok(key, fd.Pos(), "every successful path hands the bytes to the response writer")
 		}
 	}
 }
